@@ -688,6 +688,53 @@ def c19_exchange(kind, fmt, reqbytes, appspec, expect_kind, keepalive=2):
                 "ncalls": len(calls)}
 
 
+def c19_real_idle(wk):
+    import time
+    from drivers import realproc as rp
+    s = rp.Server(wk, workers=1, threads=2 if wk == "gthread" else None, name="c19",
+                  args=["--keep-alive", "1", "--access-logformat", "%(s)s|%(B)s|%(U)s"])
+    try:
+        logp = os.path.join(s.dir, "access.log")
+        s.cmd[-1:-1] = ["--access-logfile", logp]
+        s.start()
+        s.wait_booted(1)
+        c = s.connect(timeout=6)
+        st, body, info = s.get("/pid?mark=idle", sock=c, keepalive=True)
+        extra = b""
+        c.settimeout(3.3)
+        t0 = time.time()
+        try:
+            while time.time() - t0 < 3.3:
+                d = c.recv(65536)
+                if not d:
+                    break
+                extra += d
+        except OSError:
+            pass
+        c.close()
+        time.sleep(0.3)
+        with open(logp) as f:
+            recs = [ln.rstrip("\n") for ln in f if "mark=idle" in ln or ln.rstrip("\n").endswith("|/pid") and False]
+        with open(logp) as f:
+            allrecs = [ln.rstrip("\n") for ln in f]
+        # the start-up probe is the first record; everything after it belongs to the one request sent
+        mine = allrecs[1:]
+        status = nbytes = -1
+        if mine:
+            parts = mine[0].split("|")
+            try:
+                status, nbytes = int(parts[0]), int(parts[1])
+            except (ValueError, IndexError):
+                pass
+        ev = {"kind": "completed", "nrec": len(mine), "status": status, "bytes": nbytes, "wstatus": st,
+              "wbody": len(body), "maxlines": 1}
+        return ev, {"kind": wk, "fmt": "%(s)s|%(B)s|%(U)s", "what": "real-keepalive-idle", "records": mine[:5],
+                    "wire": "", "escaped": None, "ncalls": 1, "request": "GET /pid?mark=idle (keep-alive, then idle 3.3 s)",
+                    "extra_bytes_received": len(extra)}
+    finally:
+        s.cleanup()
+
+
 def c19(ctx):
     import base64
     rng = ctx.rng
@@ -776,6 +823,13 @@ def c19(ctx):
                         "completed", "close_raises")
                     add(kind, fmt, request_bytes(rq), drv.AppSpec(headers=hdrs, chunks=[b"hel", b"lo"], second="exc_info_after_empty"),
                         "completed", "late_exc_info")
+    # 5. real processes: one request on a keep-alive connection, then silence for longer than the keep-alive time
+    #    (timers cannot be scripted in-process): still exactly one record
+    from props.reload_real import _parallel
+    plan = ["gevent", "gthread"] if ctx.quick else ["gevent", "eventlet", "gthread", "sync"]
+    for ev, info in _parallel(plan, lambda a, i: c19_real_idle(a)):
+        traces.append({"ev": [ev]})
+        metas.append(info)
     verdicts, stats = tlc.validate_batch("AccessTrace", "AccessTrace.cfg", traces, name="AccessTrace_C19", chunk=6000)
     ctx.add_traces(len(traces), stats)
     for t, m, (v, step) in zip(traces, metas, verdicts):
